@@ -31,7 +31,7 @@ NOTE_RE = re.compile(r'Maximum credit for attempt #(-?\d+) is (\d+(?:\.\d+)?)%\.
 def gates(tier):
     return {'schedule_values': 30000, 'grader_calls': 3000, 'reduced_results': 800,
             'note_checked': 400, 'zero_grade_entries': 300, 'missing_attempt': 30,
-            'recorded_attempt_checked': 100}
+            'recorded_attempt_checked': 100, 'history_calls': 1000}
 
 
 def linear_ref(after, steps, minimum, n):
@@ -249,6 +249,49 @@ def check_grader_call(ctx, desc, build, inp, sched_desc, sched, attempt, note_fl
         ctx.violation('C17:note_percentage', 'note says %s%% for credit %r' % (m.group(2), credit), wit)
 
 
+def run_histories(ctx):
+    """One grader object, several calls: each call is judged by its own attempt number (or its absence)."""
+    from mitxgraders import LinearCredit, GeometricCredit
+    rng = ctx.rng
+    graders = make_graders(rng, None)
+    for i in range(ctx.n(640, 8000)):
+        desc, build, inputs = graders[i % len(graders)]
+        sched = rng.choice([LinearCredit(decrease_credit_after=1, decrease_credit_steps=3, minimum_credit=0.1), GeometricCredit(factor=0.5)])
+        g = build({'attempt_based_credit': sched, 'attempt_based_credit_msg': True})
+        base_g = build({})
+        seq = [rng.choice([1, 2, 3, 5, None, None, 0]) for _ in range(rng.randint(2, 5))]
+        hist = []
+        for attempt in seq:
+            inp = rng.choice(inputs)
+            kwargs = {} if attempt is None else {'attempt': attempt}
+            base = lib.call(ctx, base_g, None, inp)
+            got = lib.call(ctx, g, None, inp, **kwargs)
+            ctx.ev()
+            ctx.count('grader_calls')
+            ctx.count('history_calls')
+            hist.append(attempt)
+            wit = {'grader': desc, 'input': inp, 'attempts_so_far_on_this_object': list(hist), 'outcome': got.brief()}
+            ctx.nontrivial(['hist', desc, list(hist), repr(inp)])
+            if not base.returned:
+                continue
+            if attempt is None:
+                ctx.count('missing_attempt')
+                if got.returned or lib.err_family(got.exc) != 'ConfigError':
+                    ctx.violation('C17:missing_attempt:after_history', 'attempt omitted (earlier calls: %r): %r' % (hist[:-1], got.brief()), wit)
+                continue
+            if not got.returned:
+                ctx.violation('C17:raises', 'call with attempt credit raised %r' % (got.brief(),), wit)
+                continue
+            credit = round(float(sched(max(attempt, 1))), 4)
+            bent, _ = entries_of(base.value)
+            gent, _ = entries_of(got.value)
+            for b, e in zip(bent, gent):
+                exp = b['grade_decimal'] * credit if (b['grade_decimal'] > 0 and credit != 1) else b['grade_decimal']
+                if abs(e['grade_decimal'] - exp) > 1e-12:
+                    ctx.violation('C17:grade_scaling:after_history', 'base %r, credit %r for attempt %r, got %r' % (b['grade_decimal'], credit, attempt, e['grade_decimal']), wit)
+                    break
+
+
 def run(ctx):
     from mitxgraders import LinearCredit, GeometricCredit, ReciprocalCredit
     rng = ctx.rng
@@ -319,6 +362,8 @@ def run(ctx):
             ctx.sample({'grader': desc, 'input': inp, 'schedule': sdesc, 'attempt': attempt, 'note': flag})
     ctx.subspace('grader x input x schedule x attempt x note-flag grid', len(combos) // ctx.nshards,
                  not ctx.quick)
+
+    run_histories(ctx)
 
     # recording author schedules: the library must ask for max(n, 1) exactly once
     for i in range(ctx.n(1600, 160000)):
